@@ -259,7 +259,11 @@ func indexHeader(
 		hdr.Size = int64(size)
 	}
 
-	if hdr.FileInfo().Mode().IsRegular() {
+	// Only records which carry content have been renamed by `AddSuffix`: they carry the uncompressed size and are
+	// neither moves nor metadata-only updates (both of which copy the stored PAX records, but use the plain name)
+	_, isMove := hdr.PAXRecords[records.STFSRecordReplacesName]
+	isMetadataOnly := hdr.PAXRecords[records.STFSRecordReplacesContent] == records.STFSRecordReplacesContentFalse
+	if ok && !isMove && !isMetadataOnly && hdr.FileInfo().Mode().IsRegular() {
 		newName, err := suffix.RemoveSuffix(hdr.Name, compressionFormat, encryptionFormat)
 		if err != nil {
 			return err
